@@ -4,6 +4,7 @@ from typing import Union
 
 from pydantic import BaseModel, Extra, ValidationError
 from pydantic_yaml import parse_yaml_file_as, parse_yaml_raw_as, to_yaml_str
+from ruamel.yaml import YAML
 
 from .encoder import DynEncoderModelMetaclass
 from .parser import ParserMixin
@@ -71,7 +72,10 @@ class BaseModelPlus(ParserMixin, BaseModel, metaclass=DynEncoderModelMetaclass):
         # Current way: use round trip through JSON to kick out non-JSON entities
         # (more elegant: allow ruamel yaml to reuse defined custom JSON dumpers)
         # tmp = self.json_dict(**_mod_def_dump_args(kwargs))
-        return to_yaml_str(self)
+        writer = YAML(typ="safe", pure=True)
+        # no line folding (it is lossy: blanks at a line break are not preserved)
+        writer.width = 2**31 - 1
+        return to_yaml_str(self, custom_yaml_writer=writer)
 
     @classmethod
     def parse_file(cls, path: Union[str, Path]):
